@@ -10,7 +10,7 @@ package dirk
 //
 //	validators manager (standard) -> account manager (wallet | dirk) -> attester (standard)
 //	                                                                      |-> signer (standard)
-//	                                                                      `-> submitter (immediate) -> node
+//	                                                                      `-> submitter (immediate | multinode) -> node
 //
 // Everything above is the REAL code.  The fakes are one layer further out: the beacon node (validator
 // registry = c13support.Node, attestation data, attester duties, attestation pool) and the wallet store
@@ -42,7 +42,9 @@ import (
 	standardattester "github.com/attestantio/vouch/services/attester/standard"
 	nullmetrics "github.com/attestantio/vouch/services/metrics/null"
 	standardsigner "github.com/attestantio/vouch/services/signer/standard"
+	"github.com/attestantio/vouch/services/submitter"
 	immediatesubmitter "github.com/attestantio/vouch/services/submitter/immediate"
+	multinodesubmitter "github.com/attestantio/vouch/services/submitter/multinode"
 	"github.com/attestantio/vouch/services/validatorsmanager"
 	"github.com/attestantio/vouch/testing/resources"
 	"github.com/attestantio/vouch/verifdrivers/c13support"
@@ -61,6 +63,7 @@ const (
 type c04Step struct {
 	Ev    string   `json:"ev"`
 	Mgr   string   `json:"mgr"`
+	Sub   string   `json:"sub"`
 	Ours  []uint64 `json:"ours"`
 	Offer []uint64 `json:"offer"`
 	Knows []uint64 `json:"knows"`
@@ -379,18 +382,38 @@ func TestVerifC04Wired(t *testing.T) {
 			if err != nil {
 				t.Fatalf("scenario %d: signer New: %v", sc.Sc, err)
 			}
-			submitterSvc, err := immediatesubmitter.New(ctx,
-				immediatesubmitter.WithLogLevel(zerolog.Disabled),
-				immediatesubmitter.WithClientMonitor(monitor),
-				immediatesubmitter.WithAttestationsSubmitter(eth2client.AttestationsSubmitter(node)),
-				immediatesubmitter.WithProposalSubmitter(mock.NewProposalSubmitter()),
-				immediatesubmitter.WithSyncCommitteeMessagesSubmitter(mock.NewSyncCommitteeMessagesSubmitter()),
-				immediatesubmitter.WithSyncCommitteeSubscriptionsSubmitter(mock.NewSyncCommitteeSubscriptionsSubmitter()),
-				immediatesubmitter.WithSyncCommitteeContributionsSubmitter(mock.NewSyncCommitteeContributionsSubmitter()),
-				immediatesubmitter.WithBeaconCommitteeSubscriptionsSubmitter(mock.NewBeaconCommitteeSubscriptionsSubmitter()),
-				immediatesubmitter.WithAggregateAttestationsSubmitter(mock.NewAggregateAttestationsSubmitter()),
-				immediatesubmitter.WithProposalPreparationsSubmitter(mock.NewProposalPreparationsSubmitter()),
-			)
+			// the submitter strategy main.go selects: immediate, or multinode (here with one node; it scatters the
+			// attestations over concurrent batches)
+			var submitterSvc submitter.AttestationsSubmitter
+			if st0.Sub == "multinode" {
+				submitterSvc, err = multinodesubmitter.New(ctx,
+					multinodesubmitter.WithLogLevel(zerolog.Disabled),
+					multinodesubmitter.WithClientMonitor(monitor),
+					multinodesubmitter.WithProcessConcurrency(2),
+					multinodesubmitter.WithTimeout(10*time.Second),
+					multinodesubmitter.WithAttestationsSubmitters(map[string]eth2client.AttestationsSubmitter{"node": node}),
+					multinodesubmitter.WithProposalSubmitters(map[string]eth2client.ProposalSubmitter{"node": mock.NewProposalSubmitter()}),
+					multinodesubmitter.WithSyncCommitteeMessagesSubmitters(map[string]eth2client.SyncCommitteeMessagesSubmitter{"node": mock.NewSyncCommitteeMessagesSubmitter()}),
+					multinodesubmitter.WithSyncCommitteeSubscriptionsSubmitters(map[string]eth2client.SyncCommitteeSubscriptionsSubmitter{"node": mock.NewSyncCommitteeSubscriptionsSubmitter()}),
+					multinodesubmitter.WithSyncCommitteeContributionsSubmitters(map[string]eth2client.SyncCommitteeContributionsSubmitter{"node": mock.NewSyncCommitteeContributionsSubmitter()}),
+					multinodesubmitter.WithBeaconCommitteeSubscriptionsSubmitters(map[string]eth2client.BeaconCommitteeSubscriptionsSubmitter{"node": mock.NewBeaconCommitteeSubscriptionsSubmitter()}),
+					multinodesubmitter.WithAggregateAttestationsSubmitters(map[string]eth2client.AggregateAttestationsSubmitter{"node": mock.NewAggregateAttestationsSubmitter()}),
+					multinodesubmitter.WithProposalPreparationsSubmitters(map[string]eth2client.ProposalPreparationsSubmitter{"node": mock.NewProposalPreparationsSubmitter()}),
+				)
+			} else {
+				submitterSvc, err = immediatesubmitter.New(ctx,
+					immediatesubmitter.WithLogLevel(zerolog.Disabled),
+					immediatesubmitter.WithClientMonitor(monitor),
+					immediatesubmitter.WithAttestationsSubmitter(eth2client.AttestationsSubmitter(node)),
+					immediatesubmitter.WithProposalSubmitter(mock.NewProposalSubmitter()),
+					immediatesubmitter.WithSyncCommitteeMessagesSubmitter(mock.NewSyncCommitteeMessagesSubmitter()),
+					immediatesubmitter.WithSyncCommitteeSubscriptionsSubmitter(mock.NewSyncCommitteeSubscriptionsSubmitter()),
+					immediatesubmitter.WithSyncCommitteeContributionsSubmitter(mock.NewSyncCommitteeContributionsSubmitter()),
+					immediatesubmitter.WithBeaconCommitteeSubscriptionsSubmitter(mock.NewBeaconCommitteeSubscriptionsSubmitter()),
+					immediatesubmitter.WithAggregateAttestationsSubmitter(mock.NewAggregateAttestationsSubmitter()),
+					immediatesubmitter.WithProposalPreparationsSubmitter(mock.NewProposalPreparationsSubmitter()),
+				)
+			}
 			if err != nil {
 				t.Fatalf("scenario %d: submitter New: %v", sc.Sc, err)
 			}
@@ -410,7 +433,7 @@ func TestVerifC04Wired(t *testing.T) {
 			}
 		}
 
-		tr.Emit(verifsupport.Ev{"sc": sc.Sc, "ev": "Reset", "mgr": st0.Mgr, "ours": st0.Ours})
+		tr.Emit(verifsupport.Ev{"sc": sc.Sc, "ev": "Reset", "mgr": st0.Mgr, "sub": st0.Sub, "ours": st0.Ours})
 		plan := map[uint64][]phase0.ValidatorIndex{}
 		dead := false
 		fail := func(kind, what, msg string) {
